@@ -11,9 +11,9 @@ var (
 	tySeq   = types.NewNamed(types.NewTypeName(0, nil, "seq", nil), types.NewStruct(nil, nil), nil)
 	tyEvent = types.NewNamed(types.NewTypeName(0, nil, "event", nil), types.NewStruct(nil, nil), nil)
 	tyRef   = types.NewNamed(types.NewTypeName(0, nil, "ref", nil), types.Typ[types.UnsafePointer], nil)
-	tySet   = types.NewNamed(types.NewTypeName(0, nil, "set", nil), types.NewStruct(nil, nil), nil)   // Array Int Bool
-	tyIMap  = types.NewNamed(types.NewTypeName(0, nil, "imap", nil), types.NewStruct(nil, nil), nil)  // Array Int Int
-	tySMap  = types.NewNamed(types.NewTypeName(0, nil, "smap", nil), types.NewStruct(nil, nil), nil)  // Array Int Str
+	tySet   = types.NewNamed(types.NewTypeName(0, nil, "set", nil), types.NewStruct(nil, nil), nil)    // Array Int Bool
+	tyIMap  = types.NewNamed(types.NewTypeName(0, nil, "imap", nil), types.NewStruct(nil, nil), nil)   // Array Int Int
+	tySMap  = types.NewNamed(types.NewTypeName(0, nil, "smap", nil), types.NewStruct(nil, nil), nil)   // Array Int Str
 	tyQMap  = types.NewNamed(types.NewTypeName(0, nil, "seqmap", nil), types.NewStruct(nil, nil), nil) // Array Int Seq
 	tyInt   = types.Typ[types.Int]
 	tyBool  = types.Typ[types.Bool]
